@@ -563,6 +563,24 @@ func C07(c *hx.Ctx) {
 	addGen(4096, 25, c.Pick(400, 4000), 1)
 	addGen(4096, 150, c.Pick(100, 1000), 2)
 	addGen(65536, 400, c.Pick(30, 400), 3)
+	// end markers whose length field is not 2 (the marker is identified by its distance alone)
+	for k, ml := range []int{3, 4, 9, 17, 18, 100, 272, 273} {
+		p := ref.Props{LC: []int{3, 0, 8, 4}[k%4], LP: []int{0, 4, 4, 0}[k%4], PB: []int{2, 4, 0, 1}[k%4]}
+		for _, mode := range []string{"marker", "both"} {
+			for _, opsl := range [][]ref.Op{nil, {{K: ref.OpLit, B: 'x'}}, {{K: ref.OpLit, B: 'a'}, {K: ref.OpLit, B: 'b'}, {K: ref.OpMatch, Dist: 2, Len: 40}, {K: ref.OpLit, B: 'c'}, {K: ref.OpShort}}} {
+				st, pl, err := ref.EncodeAloneML(p, 4096, opsl, mode, false, ml)
+				if err != nil {
+					c.Inconclusive("marker-length stream: %v", err)
+					continue
+				}
+				if chk := ref.DecodeAlone(st, false); chk.Err != nil || !bytes.Equal(chk.Out, pl) {
+					c.Inconclusive("trusted base: ref rejects its own stream with marker length %d: %v", ml, chk.Err)
+					continue
+				}
+				rs = append(rs, rcase{fmt.Sprintf("marker-length %d lc%d lp%d pb%d %s ops=%d", ml, p.LC, p.LP, p.PB, mode, len(opsl)), st, pl, true})
+			}
+		}
+	}
 	// zero-length content in every mode and property combination
 	for code := 0; code < 225; code += c.Pick(7, 1) {
 		p := ref.Props{LC: code % 9, LP: (code / 9) % 5, PB: code / 45}
